@@ -282,7 +282,7 @@ func runExtList(e *env) error {
 	// is its own package, wherever the extend line stands
 	type around struct{ pre, post, final string }
 	arounds := []around{
-		{mod + "/p", "", mod + "/p"},                       // output in p: unexported functions of p are accessible
+		{mod + "/p", "", mod + "/p"},                             // output in p: unexported functions of p are accessible
 		{mod + "/p", mod + "/p/generated", mod + "/p/generated"}, // moved away afterwards: not accessible any more
 		{mod + "/p/generated", "", mod + "/p/generated"},
 	}
